@@ -113,6 +113,10 @@ def configs(tier):
         # (publishing a counter, returning a token) can interleave with the other workers
         dict(name="tight_budget_release_points", sizes=[5, 5, 3], workers=2, release_points=True),
         dict(name="oversized_release_points", sizes=[9, 9], workers=2, release_points=True),
+        # sources are real external tensors (streamed in 4-byte chunks, reserved as such); once never read, once read
+        # before the save: what is handed to write() at any time must stay within budget + largest tensor
+        dict(name="external_sources", sizes=[9, 9, 9], workers=3, external=True),
+        dict(name="external_sources_read_before_the_save", sizes=[9, 9, 9], workers=3, external=True, read_first=True),
     ]
     if tier == "thorough":
         cs += [
@@ -166,17 +170,89 @@ def _expected_files(cfg, root):
     mon = Monitor()
     dummy = sched.Scheduler()
     dummy.point = lambda *a, **k: None
-    tensors = _make_tensors(cfg, dummy, mon, with_fail=False)
-    ed._write_external_tensors(tensors, d, "w.data", max_shard_size_bytes=cfg.get("shard"), callback=None,
-                               max_workers=None, max_in_flight_bytes=BUDGET, alignment=None, align_threshold=0)
+    tensors = _make_tensors(cfg, dummy, mon, with_fail=False, root=root)
+    r = ed._write_external_tensors(tensors, d, "w.data", max_shard_size_bytes=cfg.get("shard"), callback=None,
+                                   max_workers=None, max_in_flight_bytes=BUDGET, alignment=None, align_threshold=0)
     out = {}
     for f in sorted(os.listdir(d)):
         out[f] = open(os.path.join(d, f), "rb").read()
     shutil.rmtree(d)
+    # the returned external tensors, position by position (callers zip them with the initializers)
+    out["<returned>"] = [(t.location, t.offset, t.length) for t in r]
     return out
 
 
-def _make_tensors(cfg, s, mon, with_fail=True):
+class _CountingFile:
+    """Destination file proxy without fileno(): every byte of an external source goes through write(), which is
+    where the bytes are materialised; the size of the buffer handed to write() is what the writer holds in memory."""
+
+    def __init__(self, real, s, mon):
+        self._f, self._s, self._mon = real, s, mon
+
+    def write(self, b):
+        n = len(b)
+        m = self._mon
+        m.live += n
+        m.max_live = max(m.max_live, m.live)
+        try:
+            self._s.point("file.write")
+            return self._f.write(b)
+        finally:
+            m.live -= n
+
+    def seek(self, *a):
+        return self._f.seek(*a)
+
+    def tell(self):
+        return self._f.tell()
+
+    def truncate(self, *a):
+        return self._f.truncate(*a)
+
+    def flush(self):
+        return self._f.flush()
+
+    def close(self):
+        return self._f.close()
+
+    @property
+    def closed(self):
+        return self._f.closed
+
+    def __enter__(self):
+        return self
+
+    def __exit__(self, *a):
+        self._f.close()
+        return False
+
+
+def _external_sources(cfg, root):
+    """Real ExternalTensor objects over one source file (optionally read once before the save, as a loaded model
+    whose weights were inspected would be)."""
+    src = os.path.join(root, "src")
+    os.makedirs(src, exist_ok=True)
+    fn = os.path.join(src, "weights.bin")
+    sizes = cfg["sizes"]
+    if not os.path.exists(fn):
+        with open(fn, "wb") as f:
+            for i, n in enumerate(sizes):
+                f.write(bytes([65 + i]) * n)
+    out, off = [], 0
+    for i, n in enumerate(sizes):
+        t = ir.ExternalTensor("weights.bin", off, n, ir.DataType.UINT8, shape=ir.Shape([n]), name=f"t{i}", base_dir=src)
+        if cfg.get("read_first"):
+            t.tobytes()
+        out.append(t)
+        off += n
+    return out
+
+
+def _make_tensors(cfg, s, mon, with_fail=True, root=None):
+    if cfg.get("external"):
+        objs = _external_sources(cfg, root)
+        order = cfg.get("shared") or list(range(len(objs)))
+        return [objs[i] for i in order]
     objs = []
     for i, n in enumerate(cfg["sizes"]):
         fail = None
@@ -200,7 +276,7 @@ def run_one(cfg, root, expected, choices):
     if os.path.isdir(d):
         shutil.rmtree(d)
     os.makedirs(d)
-    tensors = _make_tensors(cfg, s, mon)
+    tensors = _make_tensors(cfg, s, mon, root=root)
     _RecordingBudget.registry = []
     info = {}
 
@@ -229,10 +305,36 @@ def run_one(cfg, root, expected, choices):
 
     saved = (ed.threading, ed.concurrent, ed._ByteBudget)
     ed.threading, ed.concurrent, ed._ByteBudget = th, cf, _RecordingBudget
+    from onnx_ir import _core as _c
+
+    saved_chunk, had_open = _c._EXTERNAL_TENSOR_COPY_CHUNK_SIZE, "open" in ed.__dict__
+    saved_open = ed.__dict__.get("open")
+    if cfg.get("external"):
+        import builtins
+
+        _c._EXTERNAL_TENSOR_COPY_CHUNK_SIZE = cfg.get("chunk", 4)
+
+        def _open(path, mode="r", *a, **k):
+            f = builtins.open(path, mode, *a, **k)
+            return _CountingFile(f, s, mon) if ("w" in mode or "+" in mode or "a" in mode) else f
+
+        ed.open = _open
     try:
         outcome = s.run(body)
     finally:
         ed.threading, ed.concurrent, ed._ByteBudget = saved
+        _c._EXTERNAL_TENSOR_COPY_CHUNK_SIZE = saved_chunk
+        if cfg.get("external"):
+            if had_open:
+                ed.open = saved_open
+            else:
+                ed.__dict__.pop("open", None)
+        for t in tensors:
+            if isinstance(t, ir.ExternalTensor):
+                try:
+                    t.release()
+                except Exception:  # noqa: BLE001
+                    pass
     v = []  # violated clauses
     if s.abort_reason is not None:
         v.append(("not_live", s.abort_reason[:160]))
@@ -243,6 +345,10 @@ def run_one(cfg, root, expected, choices):
                 v.append(("unexpected_exception", repr(outcome[1])))
             else:
                 files = {f: open(os.path.join(d, f), "rb").read() for f in sorted(os.listdir(d))}
+                expected = dict(expected)
+                want_result = expected.pop("<returned>")
+                if info.get("result") != want_result:
+                    v.append(("returned_tensors_differ_from_serial", (info.get("result"), want_result)))
                 if files != expected:
                     v.append(("files_differ_from_serial", {k: (len(files.get(k, b"")), len(expected.get(k, b""))) for k in set(files) | set(expected)}))
                 n = len(tensors)
